@@ -135,6 +135,48 @@ def regime_case(item):
     return sc.name, rname, oname, diff_obs(base, obs), base["C"]["outcome"]
 
 
+# ---------------------------------------------------------------- record size
+RECSIZES = [1, 2, 3, 4, 5, 6, 7, 8, 12, 13, 16, 24, 32, 36, 37, 40, 48, 64,
+            100, 128, 300, 1024]
+RECSIZE_SCENS = ["SSLv3-RSA", "TLS1.0-DHE_RSA", "TLS1.2-ECDHE_RSA-GCM",
+                 "TLS1.2-RSA-clientauth", "TLS1.3-RSA",
+                 "TLS1.3-RSA-clientauth", "TLS1.3-HRR"]
+
+
+def recsize_case(item):
+    """The sender cuts everything it sends (handshake flights included)
+    into records of at most n bytes (conn.recordSize): the session must be
+    what it is with the default size."""
+    sname, size, side, seed = item
+    sc = [s for s in S.flavours("thorough") if s.name == sname][0]
+    _, base = progs.run_session(sc, seed)
+    base = progs.public(base)
+
+    def hook(w, pair):
+        if side in ("C", "both"):
+            pair.c.recordSize = size
+        if side in ("S", "both"):
+            pair.s.recordSize = size
+    _, obs = progs.run_session(sc, seed, world_hook=hook,
+                               opts={"max_steps": 3000000})
+    obs = progs.public(obs)
+    d = []
+    for who in ("C", "S"):
+        for k in ("outcome", "closed", "resumable"):
+            if base[who][k] != obs[who][k]:
+                d.append((who, k, repr(base[who][k])[:200],
+                          repr(obs[who][k])[:200]))
+        lb = [(e[0], e[1]) if e[0] != "hs" else ("hs", e[2].get("version"),
+                                                 e[2].get("suite"))
+              for e in base[who]["log"]]
+        lo = [(e[0], e[1]) if e[0] != "hs" else ("hs", e[2].get("version"),
+                                                 e[2].get("suite"))
+              for e in obs[who]["log"]]
+        if lb != lo:
+            d.append((who, "log", repr(lb)[:200], repr(lo)[:200]))
+    return sname, size, side, d, base["C"]["outcome"]
+
+
 # ---------------------------------------------------------------- blocking
 class BlockingSock(object):
     """Blocking-mode view of a MemSock: recv() steps the peer until bytes
@@ -545,10 +587,29 @@ def run(res, tier, seed):
                            "direction": direction, "mode": mode,
                            "param": param})
     res.section("reframing", executions=nr)
+    sizes = RECSIZES if tier == "quick" else sorted(set(
+        RECSIZES + list(range(1, 70))))
+    sitems = [(sn, n, side, seed) for sn in RECSIZE_SCENS for n in sizes
+              for side in (("both",) if tier == "quick" and n > 40 else
+                           ("C", "S", "both"))]
+    nrs = 0
+    for (sn, n, side, d, bout) in pmap(recsize_case, sitems, chunksize=1):
+        nrs += 1
+        res.count()
+        res.outcome(("recsize", sn, not d))
+        for x in d:
+            res.violation({"part": "record-size", "scenario": sn,
+                           "what": "%s.%s" % (x[0], x[1])},
+                          {"size": n, "side": side, "diff": x,
+                           "baseline": bout},
+                          {"part": "record-size", "scenario": sn, "size": n,
+                           "side": side})
+    res.section("sender_record_size", executions=nrs, sizes=sizes,
+                scenarios=RECSIZE_SCENS)
     res.coverage["states"] = states
     res.coverage["transitions"] = total + nreg + nb + nr + na
     res.coverage["traces_validated_against_impl"] = total + nreg + nb + nr + na
-    res.coverage["distinct_nontrivial"] = total + nreg + nb + nr + na
+    res.coverage["distinct_nontrivial"] = total + nreg + nb + nr + na + nrs
     res.assumptions += [
         "socket model: non-blocking socket may answer would-block on recv/"
         "send; sendall raises after a partial write as CPython's does",
